@@ -142,3 +142,19 @@ Definition events_use_latest (tr : list doc) : Prop :=
     exists d, In (DDescr d) pre /\ de_uid d = de /\ latest_descr pre (de_name d) = Some d.
 
 Definition no_name0 (h : list op) : Prop := forallb (fun o => negb (uses_name0 o)) h = true.
+
+(* decidable form of [events_use_latest] (scan with the prefix seen so far) *)
+Fixpoint events_use_latest_b (pre rest : list doc) : bool :=
+  match rest with
+  | [] => true
+  | x :: rest' =>
+      (match x with
+       | DEvent _ de _ _ _ =>
+           existsb (fun y => match y with
+                             | DDescr d => uid_eqb (de_uid d) de &&
+                                           option_beq descr_beq (latest_descr pre (de_name d)) (Some d)
+                             | _ => false
+                             end) pre
+       | _ => true
+       end) && events_use_latest_b (pre ++ [x]) rest'
+  end.
